@@ -74,6 +74,19 @@ pub fn select_connection_idx(
     }
 }
 
+/// Copy the runtime-tunable liveness timeout from the snapshot to every link.
+///
+/// `is_timed_out` reads the per-link copy because its callers carry no config.
+/// Selection refreshes it on every routed packet; housekeeping must refresh it
+/// too, otherwise an idle sender (no client traffic, so no selection pass)
+/// keeps judging links by the value they were created with and tears them down
+/// earlier than the configured timeout.
+pub fn refresh_conn_timeouts(conns: &mut [SrtlaConnection], config: &ConfigSnapshot) {
+    for c in conns.iter_mut() {
+        c.conn_timeout_ms = config.conn_timeout_ms;
+    }
+}
+
 /// Drive every link's stall latch and fast silence pull, and recompute its
 /// `stall_gated` flag.
 ///
@@ -99,9 +112,7 @@ pub fn select_connection_idx(
 /// not carry a config.
 #[inline]
 fn apply_stall_gate(conns: &mut [SrtlaConnection], current_time_ms: u64, config: &ConfigSnapshot) {
-    for c in conns.iter_mut() {
-        c.conn_timeout_ms = config.conn_timeout_ms;
-    }
+    refresh_conn_timeouts(conns, config);
 
     if !config.stall_deselect {
         for c in conns.iter_mut() {
